@@ -278,6 +278,49 @@ DRM_CHOICES = ["all", "clearkey", "playready", "marlin", "playready-pro", "playr
                "playready,marlin", "clearkey,playready-pro", "none"]
 
 
+# clock / age dimension of live requests --------------------------------------------------------
+PHASES = [0, 250000, 500000, 750000, 999999, 1, 499999, 500001]
+# instants (UTC, whole seconds) around which clocks are drawn: day, month, year and leap-day boundaries
+ANCHORS = ["2024-02-29T00:00:00", "2024-03-01T00:00:00", "2025-01-01T00:00:00", "2024-12-31T23:59:59",
+           "2024-06-01T00:00:00", "2025-03-01T00:00:00", "2024-02-28T23:59:59", "2024-07-14T00:00:00",
+           "2025-10-26T01:00:00", "2024-01-02T12:34:56"]
+
+
+def young_stream(rng, query: list, scenario: int | None = None):
+    """a live request in the first seconds of the stream's life, or at the edge of its time shift
+    buffer: → (clock instant, query with start / depth replaced).  start <= clock always."""
+    depth = rng.choice([1, 2, 20, 59, 60, 61, 120, 300])
+    phase = rng.choice(PHASES + [rng.randrange(1000000)])
+    if rng.random() < .6:
+        base = datetime.datetime.fromisoformat(rng.choice(ANCHORS)).replace(tzinfo=datetime.timezone.utc)
+        base += datetime.timedelta(seconds=rng.choice([0, 0, 1, 2, 5, 30, 59, 60, 61, 119, 300]))
+    else:
+        base = datetime.datetime(2024, 1, 2, tzinfo=datetime.timezone.utc) + datetime.timedelta(
+            seconds=rng.randrange(0, 700 * 86400))
+    now = base + datetime.timedelta(microseconds=phase)
+    k = rng.randrange(5) if scenario is None else scenario
+    if k <= 1:
+        # explicit start a few seconds before the clock: age around 0, below, at and just above the depth
+        age = rng.choice([0, 1, 2, 3, max(0, depth - 1), depth, depth + 1, 7, 59, 61])
+        start = segchecks.iso(base - datetime.timedelta(seconds=age))
+    elif k == 2:
+        start = "now"                       # the server makes the stream one minute old
+        depth = rng.choice([59, 60, 61, 120, 300])
+    elif k == 3:
+        start = "today"                     # clock shortly after midnight: age = seconds since midnight
+        now = now.replace(hour=0, minute=rng.choice([0, 0, 1, 4]), second=rng.choice([0, 1, 7, 59]))
+        depth = rng.choice([20, 60, 120, 300])
+    else:
+        start = rng.choice(["month", "year"])
+        now = now.replace(day=1, hour=0, minute=rng.choice([0, 0, 1, 4]), second=rng.choice([0, 1, 7, 59]))
+        if start == "year":
+            now = now.replace(month=1)
+        depth = rng.choice([20, 60, 120, 300])
+    q = [x for x in query if x[0] not in ("start", "depth", "drift")]
+    q += [["start", start], ["depth", str(depth)]]
+    return now, q
+
+
 def gen_case(rng, hostile: bool = True, force: dict | None = None) -> dict:
     ms = manifests()
     force = force or {}
@@ -299,6 +342,8 @@ def gen_case(rng, hostile: bool = True, force: dict | None = None) -> dict:
     query = gen_options(rng, mft, mode, stream, kind)
     now = datetime.datetime(2024, 1, 2, tzinfo=datetime.timezone.utc) + datetime.timedelta(
         seconds=rng.randrange(0, 700 * 86400), microseconds=rng.choice([0, 0, 500000, rng.randrange(1000000)]))
+    if mode == "live" and rng.random() < .5:
+        now, query = young_stream(rng, query)
     case = {"kind": kind, "manifest": name, "mode": mode, "stream": stream, "query": query, "rawquery": False,
             "host": "localhost", "now": segchecks.iso(now), "stored": {}, "hostile": []}
     if kind == "patch":
